@@ -161,6 +161,48 @@ Fixpoint trace (s : Z) (ops : list op) : list Z :=
   | o :: r => let '(s', out) := step s o in enc_res out ++ [s'] ++ trace s' r
   end.
 
+(* ---------- arguments handed over in variables ----------
+   The argument of RND / RANDOMIZE may be a variable or array element; the callee then works on (a view of)
+   the variable itself.  The store of variables is threaded through every operation so that "the operation
+   leaves its argument alone" is a statement about the model and an observation of the correspondence. *)
+Inductive vop :=
+| VRnd (i : nat)           (* RND(X) with X the i-th variable *)
+| VRandomize (i : nat)     (* RANDOMIZE X *)
+| VOp (o : op).            (* an operation with an immediate argument (literal / expression) or none *)
+
+Definition var_get (st : list value) (i : nat) : value := nth i st VStr.
+
+Definition vop_op (st : list value) (o : vop) : op :=
+  match o with
+  | VRnd i => ORnd (Some (var_get st i))
+  | VRandomize i => ORandomize (var_get st i)
+  | VOp o' => o'
+  end.
+
+(* one operation on (seed, variables): no operation of the generator assigns to a variable *)
+Definition vstep (s : Z) (st : list value) (o : vop) : (Z * list value) * res (list Z) :=
+  let '(s', out) := step s (vop_op st o) in ((s', st), out).
+
+Fixpoint vexec (s : Z) (st : list value) (ops : list vop) : Z * list value :=
+  match ops with
+  | [] => (s, st)
+  | o :: r => let '((s', st'), _) := vstep s st o in vexec s' st' r
+  end.
+
+(* what is observed of the variable used by an operation, after the operation: its bytes *)
+Definition var_obs (st : list value) (o : vop) : list Z :=
+  match o with
+  | VRnd i | VRandomize i => let b := value_bytes (var_get st i) in zlen b :: b
+  | VOp _ => []
+  end.
+
+Fixpoint vtrace (s : Z) (st : list value) (ops : list vop) : list Z :=
+  match ops with
+  | [] => []
+  | o :: r => let '((s', st'), out) := vstep s st o in
+              enc_res out ++ [s'] ++ var_obs st' o ++ vtrace s' st' r
+  end.
+
 (* ---------- harness helpers (correspondence sweeps) ---------- *)
 (* checksum of the RND value bytes over the seeds lo, lo+1, ..., lo+n-1 *)
 Definition bytes_code (b : list Z) : Z :=
